@@ -110,6 +110,9 @@ def slices(tier, rng):
     out.append(Slice('scope-ps4', 't_order_scope', 11, lambda a: c11.assume(a, 4, 2) + [a[1] == 0, a[5] == 0] +
                      ([z3.Or(a[7 + i] == 0, a[7 + i] == 1, a[7 + i] == 2, a[7 + i] == 3, a[7 + i] == 4, a[7 + i] == 8) for i in range(2)] if tier == 'quick' else []),
                      opts={'map_order': order_hook_global, 'must_reach': ['ok/ok']}, ctx={'t': 'scope'}))
+    # the same modules added in every order (no hash-order choice involved: the add order itself is the varied dimension)
+    out.append(Slice('module-add-order-ps4', 't_order_modules', 4, lambda a: [a[0] == 4, z3.ULE(a[1], 3), z3.ULE(a[2], 1), z3.ULE(a[3], 5)],
+                     opts={'must_reach': ['ok/ok']}, ctx={'t': 'modules'}))
     for ps in ((4,) if tier == 'quick' else (4, 8)):
         out.append(Slice('vft-ps%d' % ps, 't_order_vft', 7, lambda a, ps=ps: vft_assume(a, ps) + [a[5] == 0, a[6] == 0] + ([a[4] == 0, a[3] == 0] if tier == 'quick' else []),
                          opts={'map_order': order_hook, 'must_reach': ['ok/ok']}, ctx={'t': 'vft'}))
@@ -129,6 +132,12 @@ def build_differs(o1, o2):
     return differs(o1, o2)
 
 
+def build_differs_concrete(o1, o2):
+    e1 = isinstance(o1, list) and o1 and o1[0] == 'err'; e2 = isinstance(o2, list) and o2 and o2[0] == 'err'
+    if e1 and e2: return False
+    return e1 != e2 or o1 != o2
+
+
 def leaf_queries(I, a, leaf, py, sl):
     if leaf.kind != 'ret': return [Query('no-%s' % leaf.kind, z3.BoolVal(True))]
     return [Query('both-orders-give-the-same-result', as_z3(build_differs(py[0], py[1])))]
@@ -145,6 +154,11 @@ def same_outcome(native, expected):
 
 def native_confirm(S, sl, args, expected, qname):
     """a difference between iteration orders is real if fresh native processes disagree with each other"""
+    if sl.template == 't_order_modules':
+        # the two builds differ in the order of the add_module calls, which the native run reproduces exactly: one run decides
+        r = S.replay_once(sl.template, args, timeout=20)
+        okp = isinstance(r, list) and len(r) == 2 and pair_same_outcome(r, expected) and build_differs_concrete(r[0], r[1])
+        return okp, r
     seen = []
     for _ in range(40):
         r = S.replay_once(sl.template, args, timeout=20)
@@ -167,6 +181,12 @@ def describe(template, args):
     if template == 't_order_scope':
         from . import c11
         return c11.describe('t_scope', a) + '\n(built twice; second build with permuted hash iteration orders)'
+    if template == 't_order_modules':
+        P = {0: '(empty)', 1: 'pub type q { pub x: *const u8 }', 2: '#[size(4), align(4)] extern type q;', 3: 'pub type S { pub x: *const u8 }'}
+        O = ['p, p::q, r', 'p, r, p::q', 'p::q, p, r', 'p::q, r, p', 'r, p, p::q', 'r, p::q, p']
+        return ('// pointer size %d\nmodule p: %s\nmodule p::q: %spub type Own { pub o: *const u8 } pub type R { pub f: *const %s }\n'
+                'module r: pub type W { pub w: *const u8 }\n// first build adds the modules in the order p, p::q, r; the second in the order %s') % (
+                    a[0], P.get(a[1], '?'), 'use r; ' if a[2] else '', 'W' if a[2] else 'Own', O[a[3]] if a[3] < 6 else '?')
     if template == 't_order_graph': return c10.describe('t_graph', a) + '\n(built twice; second build with a permuted hash-map iteration order)'
     K = {0: 'u32', 1: '*const A', 2: '*const AVftable', 3: '*const CVftable', 4: '*const BVftable'}
     return ('// pointer size %d (built twice with different hash-map iteration orders)\n'
